@@ -1,21 +1,269 @@
 package main
 
 // Environment model, part 2: intrinsics needed by package cmd (clock, text output, errgroup,
-// filepath/glob model, ...).
+// filepath/glob model, random numbers, ...).
 
 import (
+	"fmt"
 	"go/types"
+	"path/filepath"
+	"sort"
+	"strings"
 
 	"golang.org/x/tools/go/ssa"
 )
 
+type egState struct {
+	err IfaceV
+}
+
+func (m *Machine) timeValue(sec *Term) *StructV {
+	// time.Time{wall, ext, loc}: wall != 0 marks a non-zero instant; ext holds Unix seconds
+	return &StructV{f: []Value{m.ctx.IntI(SU64, 1), m.ctx.Conv(sec, SI64), Pointer{}}}
+}
+
 func (m *Machine) envIntrinsic2(name string, fn *ssa.Function, args []Value) (Value, bool) {
+	e := m.env
+	c := m.ctx
+	nilErr := IfaceV{}
+	switch name {
+	case "os.Getenv":
+		m.stub(name)
+		return m.strConst(""), true
+	// ---- clock
+	case "time.Now":
+		m.stub(name)
+		if e.now == nil {
+			m.unsupported("time.Now without a harness clock (vrt.SetClock)")
+		}
+		return m.timeValue(e.now), true
+	case "(time.Time).IsZero":
+		t := args[0].(*StructV)
+		return c.And(c.Eq(t.f[0].(*Term), c.IntI(SU64, 0)), c.Eq(t.f[1].(*Term), c.IntI(SI64, 0))), true
+	case "(time.Time).UTC", "(time.Time).Local":
+		return args[0], true
+	case "(time.Time).Unix":
+		return args[0].(*StructV).f[1], true
+	case "(time.Time).Sub":
+		a, b := args[0].(*StructV).f[1].(*Term), args[1].(*StructV).f[1].(*Term)
+		return c.Arith(OMul, c.Arith(OSub, a, b), c.IntI(SI64, 1000000000)), true
+	case "(time.Time).Format":
+		m.stub(name)
+		return m.opaqueText("time", nil), true
+	case "(time.Duration).String":
+		m.stub(name)
+		return m.opaqueText("duration", nil), true
+	case "time.Unix":
+		return m.timeValue(args[0].(*Term)), true
+	// ---- output
+	case "fmt.Fprintf", "fmt.Fprint", "fmt.Fprintln":
+		m.stub(name)
+		w := args[0].(IfaceV)
+		var format string
+		var va SliceV
+		if name == "fmt.Fprintf" {
+			format = m.mustStr(args[1])
+			va = args[2].(SliceV)
+		} else {
+			format = "%v"
+			va = args[1].(SliceV)
+		}
+		if p, ok := w.v.(Pointer); ok {
+			if _, isSL := p.loc.(*StructLoc); isSL && strings.HasSuffix(w.t.String(), "strings.Builder") {
+				txt := m.sprintf(format, va)
+				m.builderAppend(p, txt.b)
+				return TupleV{c.IntI(SI64, int64(len(txt.b))), nilErr}, true
+			}
+			if fo, isFile := p.loc.(*FileObj); isFile && fo.std == "" && !fo.open {
+				return TupleV{c.IntI(SI64, 0), m.newErr("write: file already closed", nil)}, true
+			}
+		}
+		if w.t == nil {
+			m.goPanic("Fprintf to nil writer")
+		}
+		m.sideEffect(name)
+		rec := LogRec{Format: format}
+		for i := 0; i < va.len; i++ {
+			rec.Args = append(rec.Args, m.load(va.arr.elems[va.off+i]))
+		}
+		e.log = append(e.log, rec)
+		return TupleV{c.IntI(SI64, 1), nilErr}, true
+	case "(*os.File).Write", "(*os.File).WriteString":
+		m.stub(name)
+		fo := fileObjOf(args[0])
+		if fo == nil || !fo.open {
+			return TupleV{c.IntI(SI64, 0), m.newErr("write: file already closed", nil)}, true
+		}
+		n := 0
+		switch x := args[1].(type) {
+		case SliceV:
+			n = x.len
+		case StringV:
+			n = len(x.b)
+		}
+		return TupleV{c.IntI(SI64, int64(n)), nilErr}, true
+	case "bufio.NewWriter":
+		m.stub(name)
+		// the text-out writer: formatting is not modelled, so the buffered writer is the file itself
+		return Pointer{loc: &BufWriterObj{w: args[0].(IfaceV)}}, true
+	case "(*bufio.Writer).Flush":
+		m.stub(name)
+		bw := args[0].(Pointer).loc.(*BufWriterObj)
+		if p, ok := bw.w.v.(Pointer); ok {
+			if fo, ok := p.loc.(*FileObj); ok && !fo.open {
+				return m.newErr("flush: file already closed", nil), true
+			}
+		}
+		bw.flushed = true
+		m.env.event("textout flush")
+		return nilErr, true
+	// ---- errgroup (run synchronously; DESIGN section 1.6)
+	case "(*golang.org/x/sync/errgroup.Group).Go":
+		m.stub(name)
+		m.sideEffect(name)
+		g := args[0].(Pointer).loc
+		st, ok := e.groups[g]
+		if !ok {
+			st = &egState{}
+			e.groups[g] = st
+		}
+		f := args[1].(*FuncV)
+		r := m.callClosure(f, nil)
+		if iv, ok := r.(IfaceV); ok && iv.t != nil && st.err.t == nil {
+			st.err = iv
+		}
+		return nil, true
+	case "(*golang.org/x/sync/errgroup.Group).Wait":
+		g := args[0].(Pointer).loc
+		if st, ok := e.groups[g]; ok {
+			return st.err, true
+		}
+		return nilErr, true
+	// ---- paths
+	case "path/filepath.Join":
+		sl := args[0].(SliceV)
+		parts := make([]string, sl.len)
+		for i := 0; i < sl.len; i++ {
+			parts[i] = m.mustStr(m.load(sl.arr.elems[sl.off+i]))
+		}
+		return m.strConst(filepath.Join(parts...)), true
+	case "path/filepath.Dir":
+		return m.strConst(filepath.Dir(m.mustStr(args[0]))), true
+	case "path/filepath.Base":
+		return m.strConst(filepath.Base(m.mustStr(args[0]))), true
+	case "path/filepath.Rel":
+		r, err := filepath.Rel(m.mustStr(args[0]), m.mustStr(args[1]))
+		if err != nil {
+			return TupleV{m.strConst(""), m.newErr(err.Error(), nil)}, true
+		}
+		return TupleV{m.strConst(r), nilErr}, true
+	case "path/filepath.ToSlash", "path/filepath.FromSlash", "path/filepath.Clean":
+		if name == "path/filepath.Clean" {
+			return m.strConst(filepath.Clean(m.mustStr(args[0]))), true
+		}
+		return args[0], true
+	case "path/filepath.Glob":
+		m.stub(name)
+		pat := m.mustStr(args[0])
+		var matches []string
+		seen := map[string]bool{}
+		for _, p := range e.order {
+			f := e.files[p]
+			if !f.exists {
+				continue
+			}
+			// files and every parent directory are candidates
+			cand := p
+			for cand != "/" && cand != "." {
+				if ok, _ := filepath.Match(pat, cand); ok && !seen[cand] {
+					seen[cand] = true
+					matches = append(matches, cand)
+				}
+				cand = filepath.Dir(cand)
+			}
+		}
+		sort.Strings(matches)
+		vals := make([]Value, len(matches))
+		for i, s := range matches {
+			vals[i] = m.strConst(s)
+		}
+		if len(vals) == 0 {
+			return TupleV{SliceV{}, nilErr}, true
+		}
+		return TupleV{m.makeSliceOf(types.Typ[types.String], vals), nilErr}, true
+	case "os.Stat", "os.Lstat":
+		m.stub(name)
+		path := m.mustStr(args[0])
+		if f, ok := e.files[path]; ok && f.exists {
+			return TupleV{IfaceV{t: fileInfoType, v: &FileInfoObj{size: int64(len(f.data))}}, nilErr}, true
+		}
+		for _, p := range e.order {
+			if e.files[p].exists && strings.HasPrefix(p, path+"/") {
+				return TupleV{IfaceV{t: fileInfoType, v: &FileInfoObj{size: 0, dir: true}}, nilErr}, true
+			}
+		}
+		return TupleV{IfaceV{}, m.pathError("stat", path, true)}, true
+	// ---- random numbers (generate)
+	case "math/rand.NewSource":
+		return IfaceV{t: fileInfoType, v: &FileInfoObj{}}, true
+	case "math/rand.New":
+		return Pointer{loc: &RandObj{}}, true
+	case "(*math/rand.Rand).Intn", "math/rand.Intn":
+		m.stub(name)
+		m.sideEffect(name)
+		var n *Term
+		if name == "math/rand.Intn" {
+			n = args[0].(*Term)
+		} else {
+			n = args[1].(*Term)
+		}
+		m.mayPanic(c.Le(n, c.IntI(n.Sort, 0)), "invalid argument to Intn")
+		e.nrand++
+		v := c.Var(fmt.Sprintf("rand_%d", e.nrand), SI64)
+		m.assertPC(c.And(c.Le(c.IntI(SI64, 0), v), c.Lt(v, c.Conv(n, SI64))))
+		return v, true
+	}
 	return nil, false
 }
 
+type BufWriterObj struct {
+	w       IfaceV
+	flushed bool
+}
+
+type RandObj struct{}
+
 func (m *Machine) invokeOpaque2(iv IfaceV, method *types.Func, args []Value) (Value, bool) {
+	switch o := iv.v.(type) {
+	case Pointer:
+		switch x := o.loc.(type) {
+		case *BufWriterObj:
+			if method.Name() == "Write" {
+				return TupleV{m.ctx.IntI(SI64, int64(args[0].(SliceV).len)), IfaceV{}}, true
+			}
+		case *FileObj:
+			switch method.Name() {
+			case "Write":
+				if !x.open {
+					return TupleV{m.ctx.IntI(SI64, 0), m.newErr("write: file already closed", nil)}, true
+				}
+				return TupleV{m.ctx.IntI(SI64, int64(args[0].(SliceV).len)), IfaceV{}}, true
+			case "Close":
+				v, _ := m.envIntrinsic("(*os.File).Close", nil, []Value{o})
+				return v, true
+			}
+		}
+	case *DiscardObj:
+		if method.Name() == "Write" {
+			return TupleV{m.ctx.IntI(SI64, int64(args[0].(SliceV).len)), IfaceV{}}, true
+		}
+	}
 	return nil, false
 }
+
+type DiscardObj struct{}
+
+var discardType = types.NewPointer(types.NewNamed(types.NewTypeName(0, nil, "intrinsicDiscard", nil), types.NewStruct(nil, nil), nil))
 
 func (m *Machine) envClosure(fv *FuncV, args []Value) (Value, bool) {
 	return nil, false
